@@ -14,6 +14,7 @@ import (
 	"strconv"
 	"strings"
 	"sync"
+	"sync/atomic"
 	"time"
 
 	"github.com/feichai0017/NoKV/pb"
@@ -21,6 +22,7 @@ import (
 	pdserver "github.com/feichai0017/NoKV/pd/server"
 	pdstorage "github.com/feichai0017/NoKV/pd/storage"
 	"github.com/feichai0017/NoKV/pd/tso"
+	"github.com/feichai0017/NoKV/vfs"
 
 	"verif/harness/hlib"
 )
@@ -133,6 +135,9 @@ func (e *pdEngine) Gen(r *hlib.Rand, tier string) []string {
 				ops = append(ops, fmt.Sprintf("pd.save %d", parked[j]))
 			}
 			parked = append(parked[:j], parked[j+1:]...)
+		case x < 81 && r.Chance(60):
+			// storage fault: the rename onto PD_STATE.json fails once, twice in a row, or for good
+			ops = append(ops, fmt.Sprintf("pd.renamefail %d", hlib.Pick(r, []int{1, 1, 2, 2, 3, 99})))
 		case x < 86:
 			ops = append(ops, "pd.restart")
 			parked = nil
@@ -191,10 +196,28 @@ type pdWorld struct {
 	threads          map[int]*pdThread
 	blocked          []int
 	replied          []rng
+	renameFail       atomic.Int64
 }
 
 func (w *pdWorld) open() {
-	st, err := pdstorage.OpenLocalStore(w.dir, nil)
+	// the real LocalStore on a fault-injecting file system: the next w.renameFail renames of the
+	// temporary checkpoint file onto PD_STATE.json fail
+	w.renameFail.Store(0)
+	ffs := vfs.NewFaultFS(vfs.OSFS{}, func(op vfs.Op, path string) error {
+		if op == vfs.OpRename && strings.HasSuffix(path, "->"+filepath.Join(w.dir, pdstorage.StateFileName)) { // hook path of a rename is "src->dst"
+			for {
+				n := w.renameFail.Load()
+				if n <= 0 {
+					return nil
+				}
+				if w.renameFail.CompareAndSwap(n, n-1) {
+					return errors.New("verif: injected rename failure")
+				}
+			}
+		}
+		return nil
+	})
+	st, err := pdstorage.OpenLocalStore(w.dir, ffs)
 	if err != nil {
 		panic(err)
 	}
@@ -378,9 +401,12 @@ func (e *pdEngine) Exec(ops []string) []string {
 				panic("verif: released request did not reply (stuck)")
 			}
 			t.done = nil
-			if rep.err != nil && !(fail && strings.Contains(rep.err.Error(), "persist allocator state")) {
+			if rep.err != nil && !strings.Contains(rep.err.Error(), "persist allocator state") {
 				out[i] = "err:" + rep.err.Error()
 				continue
+			}
+			if rep.err != nil {
+				fail = true // the checkpoint write failed inside the real store (injected rename failure)
 			}
 			flag := "fresh"
 			if !fail {
@@ -419,6 +445,17 @@ func (e *pdEngine) Exec(ops []string) []string {
 				continue
 			}
 			out[i] = fmt.Sprintf("%s:reply=%d,%d ckpt=%d,%d%s", flag, rep.first, rep.count, cid, cts, nxt)
+		case f[0] == "pd.renamefail" && len(f) == 2:
+			n, err := strconv.ParseInt(f[1], 10, 64)
+			if err != nil || n < 0 {
+				out[i] = "bad-op"
+				continue
+			}
+			if w.gate == nil {
+				w.open()
+			}
+			w.renameFail.Store(n)
+			out[i] = "ok"
 		case f[0] == "pd.restart" && len(f) == 1:
 			if w.gate != nil {
 				w.kill()
